@@ -437,7 +437,31 @@ pub fn gen_case(seed: u64, idx: u64, family: u64) -> Case {
     if idx % 3 == 0 {
         spec.style.size.height = Dimension::auto();
     }
+    // auto-repeat tracks on an axis whose size is indefinite but bounded by BOTH a min- and a max-size that fit different numbers
+    // of repetitions (which of the two bounds stands in for the missing size decides the explicit track count)
+    let auto_repeat_bounds = idx % 7 == 1;
+    if auto_repeat_bounds {
+        let tr = *rng.pick(&[10.0f32, 20.0, 30.0]);
+        let kind = if rng.chance(1, 2) { GridTrackRepetition::AutoFill } else { GridTrackRepetition::AutoFit };
+        let lo = tr * (1.0 + rng.below(2) as f32) + *rng.pick(&[0.0f32, 3.0]);
+        let hi = lo + tr * (1.0 + rng.below(3) as f32);
+        let rep = TrackSizingFunction::Repeat(kind, vec![length(tr)]);
+        if rng.chance(1, 2) {
+            spec.style.grid_template_columns = vec![rep];
+            spec.style.size.width = Dimension::auto();
+            spec.style.min_size.width = Dimension::length(lo);
+            spec.style.max_size.width = Dimension::length(hi);
+        } else {
+            spec.style.grid_template_rows = vec![rep];
+            spec.style.size.height = Dimension::auto();
+            spec.style.min_size.height = Dimension::length(lo);
+            spec.style.max_size.height = Dimension::length(hi);
+        }
+    }
     let mut input = gen_input(&mut rng, &cfg);
+    if auto_repeat_bounds {
+        input.known_dimensions = Size::NONE;
+    }
     if idx % 2 == 0 && rng.chance(2, 3) {
         input.known_dimensions.width = None;
     }
